@@ -35,13 +35,26 @@ Inductive case :=
     empty when no SDK was installed (nothing can be collected).  [cbs]: identifiers of callbacks
     passed to an observable-instrument constructor (creation-time callbacks); the model has no
     such operation, so their events are left out of the model comparison and judged by the
-    specification only. *)
-| CSeq (steps : list (N * N)) (cbs : list N) (h : list (N * N * N)) (live : list (N * N * N * N))
+    specification only.  [badrec] / [badcb]: measurements made through, and callbacks attached to,
+    placeholder instruments whose NAME the SDK rejects (known finding F-C16-2: such a placeholder
+    is never connected); the model has no such instruments, they are left out of the model
+    comparison, and a specification failure that consists of exactly these identifiers not
+    arriving is classified as known finding 2. *)
+| CSeq (steps : list (N * N)) (cbs badrec badcb : list N) (h : list (N * N * N)) (live : list (N * N * N * N))
 (** A free-running (concurrent) scenario: judged by the specification alone. *)
 | CHist (h : list (N * N * N)) (live : list (N * N * N * N)).
 
 Definition is_cb_event (cbs : list N) (e : ev) : bool :=
   existsb (fun r => existsb (N.eqb r) cbs) (ev_regs e).
+
+Definition ev_meas (e : ev) : list N :=
+  match e with ERecCall _ n | ERecRet n | ESdkRec n => [n] | _ => [] end.
+Definition memN (x : N) (l : list N) : bool := existsb (N.eqb x) l.
+Definition drop_ids (recs regs : list N) (h : history) : history :=
+  filter (fun e => negb (existsb (fun n => memN n recs) (ev_meas e)) &&
+                   negb (existsb (fun r => memN r regs) (ev_regs e))) h.
+Definition drop_live (regs : list N) (live : list (N * N * N * N)) :=
+  filter (fun p => let '(r, _, _, _) := p in negb (memN r regs)) live.
 
 Definition same_counts (h1 h2 : history) : bool :=
   forallb (fun e => Nat.eqb (count e h1) (count e h2)) (h1 ++ h2).
@@ -75,14 +88,22 @@ Definition flag (b : bool) (code : N) : list N := if b then [] else [code].
 
 Definition check_case (c : case) : list N :=
   match c with
-  | CSeq steps cbs h live =>
+  | CSeq steps cbs badrec badcb h live =>
       let hi := dec_hist h in
       let m := model_run steps in
       let hm := hist (fst m) ++ thist (snd m) in
-      let hi' := filter (fun e => negb (is_cb_event cbs e)) hi in
-      let live' := filter (fun p => let '(r, _, _, _) := p in negb (existsb (N.eqb r) cbs)) live in
-      flag (all_done steps m && same_counts hm hi' && model_live (fst m) live') V_MISMATCH ++
-      flag (spec_ok hi && live_ok hi live && ids_unique hi) V_SPECFAIL ++
+      let hi' := drop_ids badrec (cbs ++ badcb) hi in
+      let hm' := drop_ids badrec badcb hm in
+      let live' := drop_live (cbs ++ badcb) live in
+      flag (all_done steps m && same_counts hm' hi' && model_live (fst m) live') V_MISMATCH ++
+      (if spec_ok hi && live_ok hi live && ids_unique hi then []
+       else
+         let hk := drop_ids badrec badcb hi in
+         if negb (match badrec ++ badcb with [] => true | _ => false end) &&
+            spec_ok hk && live_ok hk (drop_live badcb live) && ids_unique hi &&
+            forallb (fun n => Nat.eqb (count (ESdkRec n) hi) 0) badrec &&
+            forallb (fun r => Nat.eqb (count (ESdkReg r) hi) 0) badcb
+         then [V_KNOWN 2] else [V_SPECFAIL]) ++
       flag (spec_ok hm) V_MODELSPEC
   | CHist h live =>
       let hi := dec_hist h in
@@ -93,6 +114,15 @@ Definition run (cs : list case) : list (N * N) := index_from 0 check_case cs.
 
 (** Smoke tests of the evaluator itself. *)
 Example corr_ex1 :
-  check_case (CSeq [(1,0);(2,0);(4,0);(6,0);(3,1)] []
+  check_case (CSeq [(1,0);(2,0);(4,0);(6,0);(3,1)] [] [] []
                    [(0,0,0);(10,2,0);(1,0,0);(2,1,0);(5,2,0);(6,2,0)] [(2,1,1,1)]) = [1].
 Proof. vm_compute. reflexivity. Qed.
+
+(** F-C16-2 as recorded from the implementation: `Meter; Int64Counter "1i1" (a name the SDK rejects;
+    the placeholder meter returns it without error); SetMeterProvider; Add` -- the measurement made
+    after installation returned never reaches the SDK.  The full-strength specification is violated
+    by this history (the theorems are about programs whose instrument requests the SDK accepts). *)
+Example f_c16_2_history_violates_spec :
+  spec_ok (dec_hist [(2,1,0); (0,0,0); (1,0,0); (3,1,3); (4,3,0)]) = false /\
+  check_case (CSeq [(1,0);(2,0);(6,0);(3,1)] [] [3] [] [(2,1,0); (0,0,0); (1,0,0); (3,1,3); (4,3,0)] []) = [V_KNOWN 2].
+Proof. vm_compute. split; reflexivity. Qed.
